@@ -251,8 +251,8 @@ def scope_tasks(tier):
     q = tier == "quick"
     fx = tla_set(repaired() & set(SCOPE_DEVS))
     t = {
-        "mc": (["free4", "gen", "nop", "db", "incl"], "QuickFamily", fx, "InvAll Dump") if q else
-              (["free5", "full4", "nop4", "db4", "incl4"], "FullFamily", fx, "InvAll Dump"),
+        "mc": (["gen4", "focus6", "nop", "db", "incl"], "QuickFamily", fx, "InvAll Dump") if q else
+              (["free5", "full4", "focus7", "nop4", "db4", "incl4"], "FullFamily", fx, "InvAll Dump"),
         "mc_fixed": (["gen", "incl"] if q else ["full4", "incl4"], "QuickFamily" if q else "FullFamily", ALLFIXED, "InvAll NoCrash"),
         "dev_uninit": (["gen"], "QuickFamily", "{}", "NoGlobCopyUninit"), "dev_replaces": (["gen"], "QuickFamily", "{}", "NoGlobCopyReplaces"),
         "dev_crash": (["gen"], "QuickFamily", "{}", "NoCrash"), "dev_core": (["incl"], "QuickFamily", "{}", "NoCoreNotHidden"),
